@@ -139,8 +139,9 @@ class LockRoles:
                 info = callee_info(gr, n.ast)
                 if info['kind'] == 'package' and any(s in self.abstract or _overrides(s, self.abstract) for s in info['scopes']):
                     self.osunlock_name = info['method']
-        if not self.oslock_name or not self.osunlock_name:
-            raise AnalysisError('abstract OS lock/unlock hooks not found')
+        if not self.oslock_name:
+            raise AnalysisError('abstract OS lock hook not found')
+        # (an explicit unlock before close() is optional: closing the descriptor drops the lock)
 
     def interp(self, program) -> CounterInterp:
         return CounterInterp(program, self.cls, self.tl, self.cnt, self.fd, self.locked_props)
@@ -278,7 +279,7 @@ def c02(ctx: Ctx) -> None:
     # R5 siblings
     for sub in r.subs:
         lk = find_method(p, sub, r.oslock_name)
-        ul = find_method(p, sub, r.osunlock_name)
+        ul = find_method(p, sub, r.osunlock_name) if r.osunlock_name else None
         if lk is None or lk in r.abstract:
             ctx.undecided('C02-R5', f'{sub.qualname} has no {r.oslock_name}', f'{FILE}:{sub.lineno}', 'missing override')
             continue
@@ -426,6 +427,11 @@ def classify_oslock(p, lk: Scope, ul: Optional[Scope]) -> Tuple[str, str]:
         return 'unknown', 'signature is not (self, fd, block)'
     fdp, blockp = params[1], params[2]
     prim_nodes = [n for n in glk.nodes if n.kind == 'call' and (res.path(resolve(glk, n, n.ast.func)) or res.path(n.ast.func) or '').split('.')[0] in ('fcntl', 'msvcrt')]
+    if len(prim_nodes) == 0:
+        raises_ = [n for n in glk.nodes if n.kind == 'raise']
+        if not raises_ or find_path(glk, [glk.entry], [glk.exit]) is not None:
+            return 'bad', 'returns normally without applying any locking primitive: success is reported with nothing locked'
+        return 'refuses', 'always raises'
     if len(prim_nodes) != 1:
         return 'unknown', f'{len(prim_nodes)} locking primitive calls'
     pn = prim_nodes[0]
@@ -546,9 +552,9 @@ def c12(ctx: Ctx) -> None:
     ctx.rule('C12-R3', 'the thread lock is an RLock iff reentrant', 1)
     ctx.rule('C12-R4', 'release() of an unheld lock has no effect', 1)
     ctx.rule('C12-R5', 'descriptor accounting under OSError faults at open/lock/unlock/close', 2)
-    ctx.rule('C12-R6', 'argument normalisation of (blocking, timeout) equals the threading.Lock table', 8)
+    ctx.rule('C12-R6', 'argument normalisation of (blocking, timeout) equals the threading.Lock table', 1)
     ctx.rule('C12-R7', 'a non-blocking acquire can never reach time.sleep; the thread lock gets the normalised arguments', 2)
-    ctx.rule('C12-R8', 'timed wait: stage-2 clock starts after stage 1, every sleep cycle passes the deadline test, sleep(poll_interval)', 3)
+    ctx.rule('C12-R8', 'timed wait: stage-2 clock starts after stage 1, every sleep cycle passes the deadline test, sleep(poll_interval)', 1)
     ctx.rule('C12-R9', 'every path through release() past the is_locked test releases the thread lock, also when the OS release fails', 1)
     ctx.rule('C12-R10', 'the nesting counter is updated only while the in-process lock is held', 1)
     ctx.rule('C12-R11', 'acquire_ctx() hands its (blocking, timeout, poll_interval) to acquire() unchanged, each in its own position', 1)
@@ -957,6 +963,94 @@ def _exec_abs(stmts: List[ast.stmt], env: Dict[str, tuple], default_attr: str, s
     return True
 
 
+class _NotUnderstood(Exception):
+    pass
+
+
+def _conc(e: ast.AST, env: Dict[str, object], default_attr: str, default_val: float):
+    """Value of a side-effect free expression over booleans / numbers / None for concrete inputs (constant folding)."""
+    if isinstance(e, ast.Name):
+        if e.id in env:
+            return env[e.id]
+        raise _NotUnderstood(e.id)
+    if isinstance(e, ast.Constant):
+        return e.value
+    if isinstance(e, ast.Attribute) and isinstance(e.value, ast.Name) and e.value.id == 'self' and e.attr == default_attr:
+        return default_val
+    if isinstance(e, ast.UnaryOp):
+        v = _conc(e.operand, env, default_attr, default_val)
+        if isinstance(e.op, ast.Not):
+            return not v
+        if isinstance(e.op, ast.USub):
+            return -v
+        raise _NotUnderstood(norm(e))
+    if isinstance(e, ast.BoolOp):
+        v = None
+        for x in e.values:
+            v = _conc(x, env, default_attr, default_val)
+            if isinstance(e.op, ast.And) and not v:
+                return v
+            if isinstance(e.op, ast.Or) and v:
+                return v
+        return v
+    if isinstance(e, ast.IfExp):
+        return _conc(e.body if _conc(e.test, env, default_attr, default_val) else e.orelse, env, default_attr, default_val)
+    if isinstance(e, ast.Compare):
+        l = _conc(e.left, env, default_attr, default_val)
+        for op, c in zip(e.ops, e.comparators):
+            r_ = _conc(c, env, default_attr, default_val)
+            try:
+                ok = {ast.Is: l is r_, ast.IsNot: l is not r_, ast.Eq: l == r_, ast.NotEq: l != r_}.get(type(op))
+                if ok is None:
+                    ok = {ast.Lt: lambda: l < r_, ast.LtE: lambda: l <= r_, ast.Gt: lambda: l > r_, ast.GtE: lambda: l >= r_}[type(op)]()
+            except (TypeError, KeyError):
+                raise _NotUnderstood(norm(e))
+            if not ok:
+                return False
+            l = r_
+        return True
+    if isinstance(e, ast.BinOp) and isinstance(e.op, (ast.Add, ast.Sub, ast.Mult)):
+        a, b = _conc(e.left, env, default_attr, default_val), _conc(e.right, env, default_attr, default_val)
+        try:
+            return a + b if isinstance(e.op, ast.Add) else a - b if isinstance(e.op, ast.Sub) else a * b
+        except TypeError:
+            raise _NotUnderstood(norm(e))
+    if isinstance(e, ast.Call) and isinstance(e.func, ast.Name) and e.func.id in ('max', 'min', 'float', 'bool', 'abs') and not e.keywords:
+        args = [_conc(a, env, default_attr, default_val) for a in e.args]
+        try:
+            return {'max': max, 'min': min, 'float': float, 'bool': bool, 'abs': abs}[e.func.id](*args)
+        except (TypeError, ValueError):
+            raise _NotUnderstood(norm(e))
+    raise _NotUnderstood(norm(e))
+
+
+def _exec_conc(stmts: List[ast.stmt], env: Dict[str, object], default_attr: str, default_val: float, stop) -> bool:
+    """Fold the leading normalisation statements for concrete inputs; True once `stop` is reached."""
+    for s_ in stmts:
+        if stop(s_):
+            return True
+        if isinstance(s_, ast.Expr):
+            continue
+        if isinstance(s_, ast.If):
+            if _exec_conc(s_.body if _conc(s_.test, env, default_attr, default_val) else s_.orelse, env, default_attr, default_val, stop):
+                return True
+            continue
+        if isinstance(s_, ast.AnnAssign):
+            if s_.value is None:
+                continue
+            s_ = ast.Assign(targets=[s_.target], value=s_.value)
+        if isinstance(s_, ast.Assign) and len(s_.targets) == 1 and isinstance(s_.targets[0], ast.Name):
+            try:
+                env[s_.targets[0].id] = _conc(s_.value, env, default_attr, default_val)
+            except _NotUnderstood:
+                env.pop(s_.targets[0].id, None)     # a local that does not matter (id(self), a file name, ...)
+            continue
+        if isinstance(s_, (ast.Assign, ast.Pass)):
+            continue
+        raise _NotUnderstood(type(s_).__name__)
+    return False
+
+
 def _rule_arguments(ctx: Ctx, r: LockRoles) -> None:
     p = ctx.program
     acq = r.acquire
@@ -996,12 +1090,13 @@ def _rule_arguments(ctx: Ctx, r: LockRoles) -> None:
         (False, 'pos'): (('bool', True), ('num', 'pos'), ('bool', False)),
         (True, 'pos'): (('bool', True), ('num', 'pos'), ('bool', False)),
     }
+    abs_undecided: List[str] = []
     for (b, tsign), (eb, et, eos) in expected.items():
         env = {bp: ('bool', b), tp: ('none',) if tsign == 'None' else ('num', tsign)}
         ok = _exec_abs(acq.node.body, env, default_attr or 'timeout', stmt_of)
         inst = f'(blocking={b}, timeout={tsign})'
         if not ok:
-            ctx.undecided('C12-R6', inst, f'{FILE}:{acq.lineno}', 'normalisation statements not understood')
+            abs_undecided.append(inst)
             continue
         a_b = _eval_abs(tlc.args[0], env, default_attr) if tlc.args else None
         a_t = _eval_abs(tlc.args[1], env, default_attr) if len(tlc.args) > 1 else None
@@ -1021,6 +1116,54 @@ def _rule_arguments(ctx: Ctx, r: LockRoles) -> None:
                   good, 'matches the threading.Lock argument table',
                   f'expected thread lock ({eb}, {et}), OS blocking {eos}',
                   construct=construct_key(acq.qualname, 'normalisation', b, tsign, a_b, a_t, a_os))
+    # the same table, exactly: the normalisation is folded for concrete (blocking, timeout, default timeout) samples and
+    # compared with the threading.Lock contract
+    bad_samples = []
+    not_understood = None
+    n_samples = 0
+    oc0 = os_calls[0].ast
+    blk0 = oc0.args[0] if oc0.args else next((k.value for k in oc0.keywords if k.arg == 'block'), None)
+    if blk0 is not None:
+        blk0 = resolve(g, os_calls[0], blk0, keep=(bp, tp))
+    for b in (True, False):
+        for tv_ in (None, -1, -0.5, 0, 0.5, 1, 10):
+            for dv in (-1, 0, 2.5):
+                env_c: Dict[str, object] = {bp: b, tp: tv_}
+                try:
+                    if not _exec_conc(acq.node.body, env_c, default_attr or 'timeout', dv, stmt_of):
+                        raise _NotUnderstood('thread-lock acquire not reached')
+                    got_b = _conc(tlc.args[0], env_c, default_attr, dv) if tlc.args else True
+                    got_t = _conc(tlc.args[1], env_c, default_attr, dv) if len(tlc.args) > 1 else -1
+                    for k in tlc.keywords:
+                        if k.arg == 'blocking':
+                            got_b = _conc(k.value, env_c, default_attr, dv)
+                        if k.arg == 'timeout':
+                            got_t = _conc(k.value, env_c, default_attr, dv)
+                    got_os = _conc(blk0, env_c, default_attr, dv) if blk0 is not None else True
+                except _NotUnderstood as ex_:
+                    not_understood = str(ex_)
+                    break
+                n_samples += 1
+                if tv_ is None:
+                    want_b, want_t = b, (dv if b else -1)
+                else:
+                    want_b = b if tv_ < 0 else True
+                    want_t = tv_ if want_b else -1
+                want_os = bool(want_b) and want_t < 0
+                t_ok = (got_t == want_t) or (not want_b and isinstance(got_t, (int, float)) and got_t < 0)
+                if bool(got_b) != bool(want_b) or not t_ok or bool(got_os) != want_os:
+                    bad_samples.append(f'(blocking={b}, timeout={tv_}, default={dv}) -> thread lock ({got_b}, {got_t}), OS blocking={got_os}; '
+                                       f'expected ({want_b}, {want_t}), {want_os}')
+    if not_understood is not None:
+        ctx.note(f'C12-R6 concrete table skipped: {not_understood}')
+        for inst in abs_undecided:
+            ctx.undecided('C12-R6', inst, f'{FILE}:{acq.lineno}', 'normalisation statements not understood')
+    else:
+        if abs_undecided:
+            ctx.note(f'sign-domain rows not decided ({len(abs_undecided)}); decided by the concrete sample table instead')
+        ctx.check('C12-R6', f'normalisation folded for {n_samples} concrete (blocking, timeout, default) samples', f'{FILE}:{tl_calls[0].line}',
+                  not bad_samples, 'matches the threading.Lock contract on every sample', '; '.join(bad_samples[:3]),
+                  construct=construct_key(acq.qualname, 'normalisation samples', len(bad_samples)))
     # R7: from the OS acquire call, time.sleep is reachable only through the true edge of a `blocking` test
     sleeps = [n for n in g.nodes if n.kind == 'call' and g.res.path(n.ast.func) == 'time.sleep']
     def is_blocking_branch(n: Node) -> bool:
@@ -1238,7 +1381,7 @@ def c13(ctx: Ctx) -> None:
         lk = find_method(p, sub, r.oslock_name)
         if lk is None or lk in r.abstract:
             continue
-        verdict, why = classify_oslock(p, lk, find_method(p, sub, r.osunlock_name))
+        verdict, why = classify_oslock(p, lk, find_method(p, sub, r.osunlock_name) if r.osunlock_name else None)
         inst = f'{sub.qualname}.{r.oslock_name}: {why}'
         if verdict in ('good', 'refuses'):
             ctx.holds('C13-R3', inst, f'{FILE}:{lk.lineno}', 'kernel lock tied to the open file description')
